@@ -171,18 +171,18 @@ func DrawClock(t *rapid.T) ClockCase {
 		nb := rapid.IntRange(1, 2).Draw(t, "nbounds")
 		for k := 0; k < nb; k++ {
 			pos := rapid.IntRange(0, len(cs.Links)).Draw(t, "pos") // 0: the invocation
-			kind := rapid.SampledFrom([]string{"exp-soon", "exp-soon", "nbf-soon", "nbf-just-passed", "exp-just-passed", "exp-comfortable", "nbf-now"}).Draw(t, "kind")
+			kind := rapid.SampledFrom([]string{"exp-soon", "exp-soon", "nbf-soon", "nbf-just-passed", "nbf-just-passed", "exp-just-passed", "exp-comfortable", "nbf-now"}).Draw(t, "kind")
 			if pos == 0 && (kind == "nbf-soon" || kind == "nbf-just-passed" || kind == "nbf-now") {
 				kind = "exp-soon" // invocations have no not-before
 			}
 			var nbf, exp *int64
 			switch kind {
 			case "exp-soon":
-				exp = ms(int64(rapid.SampledFrom([]int{900, 1000, 1500, 2000}).Draw(t, "expms")))
+				exp = ms(int64(rapid.SampledFrom([]int{900, 1000, 1100, 1300, 1500, 1700, 1900, 2000}).Draw(t, "expms")))
 			case "nbf-soon":
-				nbf = ms(int64(rapid.SampledFrom([]int{900, 1000, 1500, 2000}).Draw(t, "nbfms")))
+				nbf = ms(int64(rapid.SampledFrom([]int{900, 1000, 1100, 1300, 1500, 1700, 1900, 2000}).Draw(t, "nbfms")))
 			case "nbf-just-passed":
-				nbf = ms(-int64(rapid.SampledFrom([]int{1, 20, 300, 999, 1000}).Draw(t, "nbfpast")))
+				nbf = ms(-int64(rapid.SampledFrom([]int{1, 20, 100, 200, 300, 400, 500, 600, 700, 800, 900, 999, 1000}).Draw(t, "nbfpast")))
 			case "nbf-now":
 				nbf = ms(0)
 			case "exp-just-passed":
@@ -203,6 +203,23 @@ func DrawClock(t *rapid.T) ClockCase {
 			cs.Dev = append(cs.Dev, fmt.Sprintf("%s@%d/%d", kind, pos, len(cs.Links)))
 		}
 		cc.Chains = append(cc.Chains, cs)
+	}
+	// a ladder, the same in every history: two-link chains with ONE bound each, at every 100 ms step around the two
+	// instants of judgement. Whatever the position of those instants within their wall-clock second, some rung
+	// sits between "now" and the nearest second boundary, on either side - an implementation whose notion of
+	// "now" is coarser than the clock's is wrong exactly there.
+	rung := func(nbf, exp *int64, expInv *int64, what string) {
+		cs := Case{Links: []Link{{Iss: 1, Aud: 2, Sub: 0, Cmd: "/"}, {Iss: 0, Aud: 1, Sub: 0, Cmd: "/"}}, Inv: Inv{Iss: 2, Sub: 0, Aud: -1, Cmd: "/x", NonceLen: 12, ExpMs: expInv}}
+		cs.Links[0].NbfMs, cs.Links[0].ExpMs = nbf, exp
+		cs.Dev = []string{"ladder:" + what}
+		cc.Chains = append(cc.Chains, cs)
+	}
+	for d := int64(100); d <= 900; d += 100 {
+		rung(ms(-d), nil, nil, fmt.Sprintf("nbf-%dms", d))
+		rung(ms(int64(cc.WaitMs)-d), nil, nil, fmt.Sprintf("nbf+wait-%dms", d))
+		rung(nil, ms(int64(cc.WaitMs)+d), nil, fmt.Sprintf("exp+wait+%dms", d))
+		rung(nil, nil, ms(int64(cc.WaitMs)+d), fmt.Sprintf("inv-exp+wait+%dms", d))
+		rung(nil, ms(d+100), nil, fmt.Sprintf("exp+%dms", d+100))
 	}
 	return cc
 }
